@@ -39,6 +39,9 @@ func (a Atom) String() string {
 	case 'i':
 		return "i" + strconv.FormatInt(a.I, 10)
 	case 'r':
+		if a.R == 0 {
+			return "r0" // -0 == 0
+		}
 		return "r" + strconv.FormatFloat(a.R, 'g', -1, 64)
 	case 'b':
 		return "b" + strconv.FormatBool(a.B)
